@@ -441,6 +441,50 @@ def scenario_segment(rep, prop, binary, workdir, seed, deadline):
                 return None
             return res
 
+        if own_obs:
+            # C19 must not take the thing under test (the observed data sets) as its precondition:
+            # convergence is established on the wire (only the best clock announces) and the
+            # observation socket is then held against it
+            roll = []
+
+            def wire_converged():
+                drain(sniff, roll, T_ANNOUNCE)
+                now = time.time()
+                recent = [m for m in roll if now - m["t"] <= 1.5]
+                del roll[:max(0, len(roll) - 200)]
+                return len(recent) >= 3 and all(m["clock"] == specs[best][2] for m in recent)
+
+            ok, took = wait_for(wire_converged, deadline)
+            rep.r["extra"]["segment_wire_convergence_s"] = round(took, 2)
+            if check_daemons(rep, prop, daemons, "segment-initial"):
+                return
+            if not ok:
+                rep.observe("precondition failed (C01's business): the segment did not converge on the wire")
+                return
+            rep.ev("segment_converged_on_the_wire")
+
+            def states_ok():
+                for i in range(3):
+                    st = daemons[i].states()
+                    if st != (["Master"] if i == best else ["Slave"]):
+                        return None
+                return True
+            ok, _ = wait_for(lambda: wire_converged() and states_ok(), 15.0)
+            if not ok:
+                view = {daemons[i].name: daemons[i].states() for i in range(3)}
+                rep.violation(f"{prop}|daemon|observation|port_ds.port_state",
+                              f"only {daemons[best].name} has been announcing for 15 s, but the observation sockets show port states {view}")
+                return
+            time.sleep(1.0)  # two more BMCA runs: the snapshot served is the one of the last run
+            fresh = {i: daemons[i].obs() for i in range(3)}
+            drain(sniff, roll, T_ANNOUNCE)
+            gm_ann = [m for m in roll if m["clock"] == specs[best][2]]
+            if all(fresh.values()) and gm_ann and wire_converged():
+                obs_pairs(rep, prop, fresh, best, specs, gm_ann[-1])
+                exporter_hop(rep, prop, binary, workdir, daemons, fresh)
+            else:
+                rep.observe("segment left the converged state before the observation comparison")
+            return
         res = judge("initial", best, [0, 1, 2])
         if res is None:
             return
@@ -841,7 +885,7 @@ def main():
                 rep.replay_info = dict(daemon_scenario=a.scenario, scenario_seed=a.seed * 1000 + k, logs=a.out + ".logs",
                                        rerun=f"python3 /verif/daemon/dtier.py --scenario {a.scenario} --property {a.property} --binary {a.binary} --seed {a.seed} --tier {a.tier} --out /tmp/dtier.json")
                 if a.scenario == "segment":
-                    scenario_segment(rep, a.property, a.binary, workdir, a.seed * 1000 + k, deadline=60.0)
+                    scenario_segment(rep, a.property, a.binary, workdir, a.seed * 1000 + k, deadline=30.0)
                 else:
                     scenario_bc(rep, a.property, a.binary, workdir, a.seed * 1000 + k, deadline=60.0, n_rounds=24 if a.tier == "quick" else 80)
                 if rep.r["findings"]:
